@@ -22,6 +22,7 @@ Items(stim) == [i \in 1..Len(stim.items) |->
                   LET it == stim.items[i] IN
                   IF it.k = "pend" THEN [k |-> "pend"]
                   ELSE IF it.k = "err" THEN [k |-> "err", code |-> it.code]
+                  ELSE IF it.k = "encfail" THEN [k |-> "encfail"]
                   ELSE [k |-> "msg", ser |-> SerOfItem(it, stim.codec)]]
 Compressed(stim) == stim.enc # "identity" /\ ~stim.override
 EncCfg(stim) == [role |-> stim.role, limit |-> Lim(stim.limit_enc), exact |-> ~Compressed(stim)]
